@@ -390,12 +390,19 @@ int32_t jls_raw_rd_payload(struct jls_raw_s * self, uint32_t payload_length_max,
     }
 
     uint32_t rd_size = payload_size_on_disk(hdr->payload_length);
+    int64_t pos = self->offset + sizeof(struct jls_chunk_header_s);
 
+    if ((rd_size < hdr->payload_length) || ((pos + (int64_t) rd_size) > self->backend.fend)) {
+        // The payload does not lie within the file: a chunk cut short, or bytes that only
+        // look like a chunk header.  Do not ask the caller for a buffer of that size.
+        JLS_LOGW("chunk at %" PRIi64 ": payload length %" PRIu32 " exceeds the file",
+                 self->offset, hdr->payload_length);
+        return JLS_ERROR_EMPTY;
+    }
     if (rd_size > payload_length_max) {
         return JLS_ERROR_TOO_BIG;
     }
 
-    int64_t pos = self->offset + sizeof(struct jls_chunk_header_s);
     if (pos != self->backend.fpos) {
         jls_bk_fseek(&self->backend, pos, SEEK_SET);
         self->backend.fpos = pos;
